@@ -3,7 +3,7 @@
   python3-vt -m pyvc.selftest            engine self-test module T00 + every mutant of selftest/mutants.py
   python3-vt -m pyvc.selftest --only c13
 
-1. contracts/T00_engine.py: exactly its EXPECTED_REFUTED obligations must be refuted, everything else discharged.
+1. contracts/T00_engine.py (and every other contracts/Tnn_*.py): exactly its EXPECTED_REFUTED obligations must be refuted, everything else discharged.
 2. each mutant is applied to a scratch copy of /repo/src under $TMPDIR (outside /repo and /verif, removed
    afterwards); the check of its property must exit 1 and name the designated obligation in a VIOLATION
    report; the unmutated scratch copy must pass.
@@ -35,15 +35,21 @@ def main():
     args = ap.parse_args()
     failures = []
     # 1. engine self-test
-    if not args.only or args.only.lower() == 't00':
-        sys.path.insert(0, VERIF)
-        from contracts import T00_engine
-        rc, out = run_check('T00', jobs=args.jobs)
+    import glob as _glob, importlib
+    sys.path.insert(0, VERIF)
+    for f in sorted(_glob.glob(os.path.join(VERIF, 'contracts', 'T[0-9][0-9]_*.py'))):
+        # engine self-test modules: exactly their EXPECTED_REFUTED obligations are refuted, the rest discharged
+        tid = os.path.basename(f)[:3]
+        if args.only and args.only.lower() != tid.lower():
+            continue
+        mod = importlib.import_module('contracts.' + os.path.basename(f)[:-3])
+        rc, out = run_check(tid, jobs=args.jobs)
         got = set(re.findall(r'^  obligation: (.*)$', out, re.M))
-        if got != set(T00_engine.EXPECTED_REFUTED) or 'UNDECIDED' in out or 'CHECKER-ERROR' in out:
-            failures.append(('T00', 'expected refutations %r, got %r\n%s' % (sorted(T00_engine.EXPECTED_REFUTED),
-                                                                              sorted(got), out[-1500:])))
-        print('T00 engine self-test:', 'ok' if not failures else 'FAILED')
+        ok = not (got != set(mod.EXPECTED_REFUTED) or 'UNDECIDED' in out or 'CHECKER-ERROR' in out)
+        if not ok:
+            failures.append((tid, 'expected refutations %r, got %r\n%s' % (sorted(mod.EXPECTED_REFUTED),
+                                                                           sorted(got), out[-1500:])))
+        print('%s engine self-test:' % tid, 'ok' if ok else 'FAILED')
     # 1a. every sidecar module must import under the repository's interpreter (no z3): replay scripts need them
     if not args.only or args.only.lower() == 'imports':
         code = ("import sys, glob, os, importlib, warnings; warnings.simplefilter('ignore'); sys.path.insert(0, %r)\n"
